@@ -189,6 +189,19 @@ func segPaths(maxSeg int, names []string) []string {
 	return out
 }
 
+// cacheChildStack: a cache directly on the backend root, then only Filespace(..) calls
+func cacheChildStack(ks []Ctor) bool {
+	if len(ks) < 2 || ks[0].Kind != "cache" {
+		return false
+	}
+	for _, k := range ks[1:] {
+		if k.Kind != "child" {
+			return false
+		}
+	}
+	return true
+}
+
 func isUnder(root, p []string) bool { return isPrefixComps(root, p) }
 
 // outsideUnchanged: the confinement oracle. before/after are walks of the BACKEND root.
@@ -256,7 +269,7 @@ func runC03(o *Out, rng *RNG, tier string, replay string) {
 	o.CaseType = "case"
 	o.CheckFn = "check"
 	o.ShardSize = 150
-	o.Rule = "view stacks of depth 1-3 over a populated backend (kinds: memfs child view, fshelper.SubFS, read-only mask, encrypted, cache-backed, disk child) x path arguments built from {name,'.','..',''} segments (exhaustive up to the tier's segment bound, with and without leading '/') x the 16 operations (both arguments of the copies). L2: backend tree outside the view root unchanged (only ancestors of the root may appear as directories), answers independent of what lies outside the root (two parents agreeing below the root), nothing created on the host above a disk root. L1 (memfs-rooted stacks without cache): result + root tree vs the Coq chain model; L1 resolve probe (all memfs-rooted stacks, caches included): the one backend file a successful WriteFile changes is where the model's path transformer resolves the argument to. Non-trivial: the operation was not rejected; distinct by (stack, op, arguments)."
+	o.Rule = "view stacks of depth 1-3 over a populated backend (kinds: memfs child view, fshelper.SubFS, read-only mask, encrypted, cache-backed, disk child) x path arguments built from {name,'.','..',''} segments (exhaustive up to the tier's segment bound, with and without leading '/') x the 16 operations (both arguments of the copies). L2: backend tree outside the view root unchanged (only ancestors of the root may appear as directories), answers independent of what lies outside the root (two parents agreeing below the root), nothing created on the host above a disk root. L1 (memfs-rooted stacks without cache): result + root tree vs the Coq chain model; L1 resolve probe (all memfs-rooted stacks, caches included): the one backend file a successful WriteFile changes is where the model's path transformer resolves the argument to; L1 cache child views (NewMemCache on the root, then Filespace(..) one or more times): the operation's result and the root tree after Commit vs the model's sub_cache_step on the cache state. Non-trivial: the operation was not rejected; distinct by (stack, op, arguments)."
 	maxSeg := 3
 	if tier == "thorough" {
 		maxSeg = 4
@@ -355,6 +368,17 @@ func runC03(o *Out, rng *RNG, tier string, replay string) {
 			} else {
 				o.Stat("resolve_probe_same_content")
 			}
+		}
+		// child view of a cache (NewMemCache on the root, then Filespace(..) one or more times): the
+		// operation's result and the root tree after the Commit vs the model's sub_cache_step
+		if emitL1 && wok && ok && cacheChildStack(ks) {
+			items := make([]string, len(ks))
+			for i, k := range ks {
+				items[i] = k.ccoq()
+			}
+			o.AddCase(fmt.Sprintf("CSub %s %s (%s) (%s) %s", coqWalk(before), coqList(items), op.coq(), out.coq(), coqWalk(after)), desc, "sub|"+keyStr, nontrivial)
+			o.Stat("cache_child_view_case")
+			return
 		}
 		if emitL1 && !hasCache && wok {
 			contentOp := op.Kind == "ReadFile" || op.Kind == "WriteFile" || op.Kind == "Reader" || op.Kind == "Writer" || op.Kind == "Lstat"
